@@ -33,7 +33,7 @@ PROP = {
 TEXT = {
     'design_ref': '§7.1',
     'note': NOTE_COMMON,
-    'technique': 'Lean 4 proof (invariants by induction over the step list) + bit-exact differential correspondence',
+    'technique': 'Lean 4 proof (invariants by induction over the step list) + bit-exact differential correspondence + translator tie (the straight-line powertrain kernels are re-translated from the Rust text on every run and proved equal to the model)',
     'text': 'Kernel-checked theorems over an arbitrary ordered field: per-step power balances of all four components, the three '
             'hand-offs, the whole-unit ledgers, SOC update, and cumulative closure for every prefix of every accepted trace '
             '(C01_walk_prefix, C01_closed) for locomotives and consists under both policies (C01_consist_ledger), by induction '
